@@ -2,6 +2,7 @@ package main
 
 import (
 	"go/token"
+	"go/types"
 
 	"golang.org/x/tools/go/ssa"
 )
@@ -211,7 +212,34 @@ func (p *Program) sources(v ssa.Value, opt provOpt) []ssa.Value {
 					return
 				}
 			}
+		case *ssa.FreeVar:
+			p.initCells()
+			if bs := p.fvBinding[x]; len(bs) > 0 && opt.ThroughCells {
+				for _, b := range bs {
+					walk(b, depth, nil)
+				}
+				return
+			}
+		case *ssa.Field:
+			// a field of a method object: x.f where x is the receiver of a method of an unexported struct type -
+			// what the field holds is what every construction site of the receiver stored into it
+			if vals, ok := p.methodObjectField(x.X, x.Field); ok && opt.ThroughCells {
+				for _, val := range vals {
+					walk(val, depth, nil)
+				}
+				return
+			}
 		case *ssa.UnOp:
+			if x.Op == token.MUL && opt.ThroughCells {
+				if fa, ok := x.X.(*ssa.FieldAddr); ok {
+					if vals, ok := p.methodObjectField(fa.X, fa.Field); ok {
+						for _, val := range vals {
+							walk(val, depth, nil)
+						}
+						return
+					}
+				}
+			}
 			if x.Op == token.MUL && opt.ThroughCells {
 				if roots := p.cellRoots(x.X); len(roots) > 0 {
 					any := false
@@ -284,4 +312,158 @@ func (p *Program) sameVar(a, b ssa.Value) bool {
 		}
 	}
 	return false
+}
+
+// methodObjectField: recv is the receiver parameter of a method of an unexported module struct type (a closure
+// written as a struct with a method). It returns the values stored into field idx at every place the receiver comes
+// from: static calls, bound method values, conversions to an interface. ok=false when some origin is not a local
+// composite literal whose field stores are all visible.
+func (p *Program) methodObjectField(recv ssa.Value, idx int) ([]ssa.Value, bool) {
+	// a value receiver whose fields are addressed is spilled: `t0 = local T (p); *t0 = p; &t0.f`
+	if a, isAlloc := recv.(*ssa.Alloc); isAlloc {
+		var whole []*ssa.Store
+		fieldStores := 0
+		for _, r := range referrers(a) {
+			switch y := r.(type) {
+			case *ssa.Store:
+				if y.Addr == ssa.Value(a) {
+					whole = append(whole, y)
+				}
+			case *ssa.FieldAddr:
+				for _, r2 := range referrers(y) {
+					if st, ok := r2.(*ssa.Store); ok && st.Addr == ssa.Value(y) {
+						fieldStores++
+					}
+				}
+			}
+		}
+		if len(whole) == 1 && fieldStores == 0 {
+			if prm0, ok := whole[0].Val.(*ssa.Parameter); ok {
+				recv = prm0
+			}
+		}
+	}
+	prm, ok := recv.(*ssa.Parameter)
+	if !ok || prm.Parent() == nil || prm.Parent().Signature.Recv() == nil || len(prm.Parent().Params) == 0 || prm.Parent().Params[0] != prm {
+		return nil, false
+	}
+	t := prm.Type()
+	if pt, ok := t.Underlying().(*types.Pointer); ok {
+		t = pt.Elem()
+	}
+	nt, ok := types.Unalias(t).(*types.Named)
+	if !ok || nt.Obj().Exported() || nt.Obj().Pkg() == nil || nt.Obj().Pkg() != p.Restful.Pkg {
+		return nil, false
+	}
+	if _, ok := nt.Underlying().(*types.Struct); !ok {
+		return nil, false
+	}
+	m := prm.Parent()
+	var recvs []ssa.Value
+	okAll := true
+	seenFn := map[*ssa.Function]bool{}
+	var collect func(fn *ssa.Function, depth int)
+	collect = func(fn *ssa.Function, depth int) {
+		if seenFn[fn] || depth > 3 {
+			return
+		}
+		seenFn[fn] = true
+		in := p.callGraph().In[fn]
+		if len(in) == 0 && fn == m {
+			okAll = false
+		}
+		for _, e := range in {
+			switch site := e.Site.(type) {
+			case *ssa.MakeInterface:
+				recvs = append(recvs, site.X)
+			case ssa.CallInstruction:
+				cc := site.Common()
+				if cc.StaticCallee() == fn && len(cc.Args) > 0 {
+					recvs = append(recvs, cc.Args[0])
+				} else if e.Kind == EdgeEscape || cc.IsInvoke() {
+					okAll = false
+				} else {
+					okAll = false
+				}
+			case *ssa.MakeClosure:
+				if len(site.Bindings) > 0 {
+					recvs = append(recvs, site.Bindings[0])
+				}
+			default:
+				okAll = false
+			}
+		}
+	}
+	collect(m, 0)
+	// bound-method and pointer-receiver wrappers
+	for _, w := range p.Funcs {
+		if w.Synthetic == "" || w.Blocks == nil {
+			continue
+		}
+		calls := false
+		eachInstr(w, func(i ssa.Instruction) {
+			if cc := callCommon(i); cc != nil && cc.StaticCallee() == m {
+				calls = true
+			}
+		})
+		if !calls {
+			continue
+		}
+		// the wrapper's receiver: its free variable (bound method) or first parameter
+		for _, fv := range w.FreeVars {
+			p.initCells()
+			recvs = append(recvs, p.fvBinding[fv]...)
+		}
+		if len(w.FreeVars) == 0 {
+			collect(w, 1)
+		}
+	}
+	if !okAll || len(recvs) == 0 {
+		return nil, false
+	}
+	var out []ssa.Value
+	for _, rv := range recvs {
+		rv = strip(rv)
+		if rv == ssa.Value(prm) {
+			continue
+		}
+		var obj *ssa.Alloc
+		switch x := rv.(type) {
+		case *ssa.Alloc:
+			obj = x
+		case *ssa.UnOp:
+			if a, ok := x.X.(*ssa.Alloc); ok && x.Op == token.MUL {
+				obj = a
+			}
+		case *ssa.FreeVar, *ssa.Parameter:
+			// the wrapper's own receiver: already followed above
+			continue
+		}
+		if obj == nil {
+			return nil, false
+		}
+		n := 0
+		for _, r := range referrers(obj) {
+			switch y := r.(type) {
+			case *ssa.FieldAddr:
+				if y.Field != idx {
+					continue
+				}
+				for _, r2 := range referrers(y) {
+					if st, ok := r2.(*ssa.Store); ok && st.Addr == ssa.Value(y) {
+						out = append(out, st.Val)
+						n++
+					}
+				}
+			case *ssa.Store:
+				if y.Addr == ssa.Value(obj) {
+					return nil, false // whole-struct store: not followed
+				}
+			}
+		}
+		if n == 0 {
+			return nil, false // zero value: not an origin we can name
+		}
+	}
+	return out, len(out) > 0
 }
